@@ -97,11 +97,23 @@ func (x *hW) batchStep(op int) {
 		b := x.mkFilter(f, t)
 		_, m := x.matching(f, t)
 		vAssume(m >= 1)
-		x.opBatchSetRelation(b.f, f, t, uR1, x.pickOKTarget("newtgt"), vChoice("q", 2) == 1, vChoice("via", 2) == 1)
-	case 3: // RemoveEntities
+		if vChoice("registered", 2) == 1 {
+			cf := x.w.Cache().Register(b.f)
+			x.opBatchSetRelation(&cf, f, t, uR1, x.pickOKTarget("newtgt"), vChoice("q", 2) == 1, vChoice("via", 2) == 1)
+			x.w.Cache().Unregister(&cf)
+		} else {
+			x.opBatchSetRelation(b.f, f, t, uR1, x.pickOKTarget("newtgt"), vChoice("q", 2) == 1, vChoice("via", 2) == 1)
+		}
+	case 3: // RemoveEntities, through the plain filter or through its registration
 		f, t := x.pickFilter("filter")
 		b := x.mkFilter(f, t)
-		x.opRemoveEntities(b.f, f, t)
+		if vChoice("registered", 2) == 1 {
+			cf := x.w.Cache().Register(b.f)
+			x.opRemoveEntities(&cf, f, t)
+			x.w.Cache().Unregister(&cf)
+		} else {
+			x.opRemoveEntities(b.f, f, t)
+		}
 	case 4: // NewBatch / NewBatchQ
 		cnt := int(vU8("count"))
 		vAssume(cnt >= 1 && cnt <= 3)
